@@ -16,6 +16,7 @@ import json
 import logging
 import os
 import re
+import signal
 import time
 
 from harness.common import coq
@@ -48,9 +49,46 @@ ASSUMPTIONS = [
     'the persistence driver itself are not (C06/C07)',
 ]
 
-FUNCS = {'ADD': (2, 4), 'MUL': (2, 3), 'MIN': (2, 4), 'MAX': (2, 3), 'IF': (3, 3), 'NOT': (1, 1), 'ABS': (1, 1),
-         'AND': (2, 3), 'OR': (2, 3), 'SUB': (2, 2)}
-BAD_TEXTS = ['FOO(1)', 'ADD(1', 'ADD(1)', '$p1 $p2', 'IF($p1, 2)', '$p#']
+BASIC_FUNCS = {'ADD': (2, None), 'MUL': (2, None), 'MIN': (2, None), 'MAX': (2, None), 'IF': (3, 3), 'NOT': (1, 1),
+               'ABS': (1, 1), 'AND': (2, None), 'OR': (2, None), 'SUB': (2, 2)}
+
+
+def _registry():
+    """name -> (min args, max args | None): the WHOLE function registry of the tree under test (read from the source by
+    harness/translate/functable.py): arithmetic, comparison, bitwise, rounding, aggregation, date/time and the time-processing
+    functions (SAMPLE DELAY HELD FREEZE DERIV INTEG FMAVG FMEDIAN SEQUENCE ACC ACCINC HYST RISING FALLING ...).  HISTORY is
+    only registered when the persistence driver stores samples (not the in-memory JSON driver used here)."""
+    try:
+        from harness.translate import functable
+        table, _ = functable.read_table()
+        fs = {e['name']: (e['MIN_ARGS'] or 0, e['MAX_ARGS']) for e in table if e.get('ENABLED') is True}
+        fs.pop('SHL', None)     # evaluation hazard of the harness, not C04's subject: int(a) << int(b) with a port value b ~ 1e15
+        if len(fs) >= 40 and all(k in fs for k in BASIC_FUNCS):
+            return fs
+    except Exception:
+        pass
+    return dict(BASIC_FUNCS)
+
+
+FUNCS = _registry()
+TIME_FUNCS = [f for f in ('SAMPLE', 'DELAY', 'HELD', 'FREEZE', 'DERIV', 'INTEG', 'FMAVG', 'FMEDIAN', 'SEQUENCE', 'ACC', 'ACCINC',
+                          'HYST', 'RISING', 'FALLING', 'DEFAULT', 'AVAILABLE', 'ONOFFAUTO', 'LUT', 'LUTLI', 'BOW', 'DATE',
+                          'HMSINTERVAL', 'MDINTERVAL') if f in FUNCS]
+
+
+def pick_arity(rng, name):
+    lo, hi = FUNCS[name]
+    return rng.randint(lo, hi if hi is not None else lo + 2)
+
+
+VALUE_DEP_RE = re.compile(r'\$([a-zA-Z0-9_.-]+)')
+
+
+def text_deps(text):
+    """the reads relation by the TEXT: every `$id` occurring anywhere in the expression (a bare `$` is the port itself)"""
+    return set(VALUE_DEP_RE.findall(text or ''))
+
+BAD_TEXTS = ['FOO(1)', 'ADD(1', 'ADD(1)', '$p1 $p2', 'IF($p1, 2)', '$p#', 'ADD(@p1, 1)', 'SAMPLE($p1)', 'HISTORY(@p1, 0, 10)']
 DANGLING = ['x1', 'x2']
 
 # ------------------------------------------------------------------------------------------------------------------
@@ -64,6 +102,8 @@ def text_of(t):
         return '$' + t[1]
     if k == 'self':
         return '$'
+    if k == 'ref':
+        return '@' + t[1]
     return '%s(%s)' % (t[1], ', '.join(text_of(a) for a in t[2]))
 
 
@@ -90,6 +130,12 @@ def parse_fragment(text):
             m = re.compile(r'[a-zA-Z0-9_.-]*').match(s, pos[0] + 1)
             pos[0] = m.end()
             return ('pv', m.group(0)) if m.group(0) else ('self',)
+        if c == '@':
+            m = re.compile(r'[a-zA-Z0-9_.-]+').match(s, pos[0] + 1)
+            if not m:
+                raise _Bad()
+            pos[0] = m.end()
+            return ('ref', m.group(0))
         m = re.compile(r'[0-9]+').match(s, pos[0])
         if m:
             pos[0] = m.end()
@@ -103,6 +149,12 @@ def parse_fragment(text):
             raise _Bad()
         pos[0] += 1
         args = []
+        ws()
+        if pos[0] < len(s) and s[pos[0]] == ')':
+            pos[0] += 1
+            if FUNCS[name][0] > 0:
+                raise _Bad()
+            return ('call', name, [])
         while True:
             args.append(expr())
             ws()
@@ -114,8 +166,10 @@ def parse_fragment(text):
                 break
             raise _Bad()
         lo, hi = FUNCS[name]
-        if not lo <= len(args) <= hi:
+        if len(args) < lo or (hi is not None and len(args) > hi):
             raise _Bad()
+        if any(a[0] == 'ref' for a in args):
+            raise _Bad()     # validate_arg_kinds: a port reference is only accepted by HISTORY (not registered here)
         return ('call', name, args)
 
     try:
@@ -136,6 +190,8 @@ def coq_expr(t):
         return '(PortVal %s)' % cstr(t[1])
     if k == 'self':
         return 'SelfVal'
+    if k == 'ref':
+        return '(PortRef %s)' % cstr(t[1])
     return '(Call %s %s)' % (cstr(t[1]), coq.lst([coq_expr(a) for a in t[2]]))
 
 
@@ -166,10 +222,23 @@ def gen_tree(rng, ids, depth, density):
             return ('self',)
         if r < density + 0.15:
             return ('pv', rng.choice(DANGLING))
-        return ('lit', rng.choice([0, 1, 2, 5, 10, 42]))
-    name = rng.choice(sorted(FUNCS))
-    lo, hi = FUNCS[name]
-    return ('call', name, [gen_tree(rng, ids, depth - 1, density) for _ in range(rng.randint(lo, hi))])
+        return ('lit', rng.choice([0, 1, 2, 5, 10, 42, 1000]))
+    name = pick_function(rng)
+    if name in SMALL_LITERAL_ARGS:
+        return ('call', name, [('lit', rng.choice([0, 1, 2, 5])) for _ in range(pick_arity(rng, name))])
+    return ('call', name, [gen_tree(rng, ids, depth - 1, density) for _ in range(pick_arity(rng, name))])
+
+
+# BOW / BOM / BOY step week by week / month by month in a Python loop of n iterations: with a port value of 1e15 as n the
+# evaluation (a background task of the ports enabled by the harness) never ends.  Not C04's subject: literal arguments only.
+SMALL_LITERAL_ARGS = ('BOW', 'BOM', 'BOY', 'BOD')
+
+
+def pick_function(rng, min_args=0):
+    r = rng.random()
+    pool = sorted(BASIC_FUNCS) if r < 0.4 else TIME_FUNCS if r < 0.75 and TIME_FUNCS else sorted(FUNCS)
+    pool = [f for f in pool if f in FUNCS and (FUNCS[f][1] is None or FUNCS[f][1] >= min_args)]
+    return rng.choice(pool or sorted(BASIC_FUNCS))
 
 
 def _wrap_ref(rng, target, ids, density):
@@ -177,9 +246,10 @@ def _wrap_ref(rng, target, ids, density):
     r = rng.random()
     if r < 0.4:
         return ('pv', target)
-    name = rng.choice(sorted(FUNCS))
-    lo, hi = FUNCS[name]
-    args = [gen_tree(rng, ids, rng.choice([0, 0, 1]), density * 0.5) for _ in range(rng.randint(lo, hi))]
+    name = pick_function(rng, min_args=1)
+    while name in SMALL_LITERAL_ARGS:
+        name = pick_function(rng, min_args=1)
+    args = [gen_tree(rng, ids, rng.choice([0, 0, 1]), density * 0.5) for _ in range(max(1, pick_arity(rng, name)))]
     args[rng.randrange(len(args))] = ('pv', target) if rng.random() < 0.7 else _wrap_ref(rng, target, ids, density)
     return ('call', name, args)
 
@@ -336,10 +406,78 @@ def gen_history(rng, par_rate=0.06, max_len=40, load_rate=0.03):
             p = rng.choice(sorted(alive))
             # mostly chains / shallow trees so that long cycles are attempted, sometimes deep nesting
             d = rng.choice([0, 0, 1, 1, 2, 3])
-            ops.append(['set', p, text_of(gen_tree(rng, ids, d, density))])
+            if rng.random() < 0.02:
+                ops.append(['set', p, '@' + rng.choice(ids)])     # @id: the port itself, not its value -- no edge
+            else:
+                ops.append(['set', p, text_of(gen_tree(rng, ids, d, density))])
             if rng.random() < 0.5:
                 ops.append(['save', p, ''])      # the API saves after a PATCH; a crash may come before
     return {'ports': present, 'ops': ops[:max_len + 10]}
+
+
+def wrapper_sweep_histories():
+    """every function of the registry, every argument position: p1 := F(.., $p2, ..) then p2 := $p1 must be refused (the edge
+    is there wherever the `$p2` sits), p1 := F(.., $, ..) and p1 := F(.., $p1, ..) must be accepted"""
+    out = []
+    for name in sorted(FUNCS):
+        lo, hi = FUNCS[name]
+        n = max(lo, 1)
+        if hi is not None and hi < 1:
+            continue
+        ops = []
+        for i in range(n):
+            for leaf in ('$p2', '$', '$p1'):
+                args = ['1'] * n
+                args[i] = leaf
+                ops.append(['set', 'p1', '%s(%s)' % (name, ', '.join(args))])
+                if leaf == '$p2':
+                    ops.append(['set', 'p2', '$p1'])
+                    ops.append(['set', 'p2', 'ADD(1, %s(%s))' % (name, ', '.join(['2'] * i + ['$p1'] + ['2'] * (n - i - 1)))])
+        ops.append(['set', 'p1', ''])
+        ops.append(['set', 'p2', '$p1'])
+        out.append({'ports': ['p1', 'p2'], 'ops': ops})
+    return out
+
+
+LONG_LENGTHS = [17, 24, 40, 64, 200]
+
+
+def gen_long_history(rng, n):
+    """a chain of n ports built in forward / reverse / random order (reverse: every assignment walks the whole chain built
+    so far), then assignments that close it at the far end and in the middle (must be refused whatever the length),
+    shortcuts that close nothing (must be accepted), a link removed and the closing edge accepted, the link refused.
+    Wrappers are at most one function deep: the walk of /repo is recursive (see notes: RecursionError beyond ~330 ports)"""
+    ids = ['p%d' % i for i in range(1, n + 1)]
+
+    def link(src, dst):
+        r = rng.random()
+        if r < 0.6:
+            return '$' + dst
+        name = pick_function(rng, min_args=1)
+        while name in SMALL_LITERAL_ARGS:
+            name = pick_function(rng, min_args=1)
+        args = [('lit', rng.choice([0, 1, 2, 1000])) for _ in range(max(1, pick_arity(rng, name)))]
+        args[rng.randrange(len(args))] = ('pv', dst)
+        return text_of(('call', name, args))
+
+    order = list(range(n - 1))
+    mode = rng.choice(['forward', 'reverse', 'reverse', 'random'])
+    if mode == 'reverse':
+        order.reverse()
+    elif mode == 'random':
+        rng.shuffle(order)
+    ops = [['set', ids[i], link(ids[i], ids[i + 1])] for i in order]
+    ops.append(['set', ids[-1], link(ids[-1], ids[0])])                       # closes the ring of n ports: refused
+    k = rng.randint(n // 2, n - 1)
+    j = rng.randint(0, max(0, k - 17)) if k > 17 and rng.random() < 0.7 else rng.randint(0, k - 1)
+    ops.append(['set', ids[k], link(ids[k], ids[j])])                         # closes a ring of k - j + 1 ports: refused
+    ops.append(['set', ids[j], 'ADD(%s, $%s)' % ('$' + ids[j + 1], ids[k])])  # shortcut forward: accepted
+    m = rng.randint(1, n - 2)
+    ops.append(['set', ids[m], ''])                                           # the chain is cut
+    ops.append(['set', ids[-1], link(ids[-1], ids[0])])                       # ... so this closes nothing: accepted
+    ops.append(['set', ids[m], link(ids[m], ids[m + 1])])                     # ... and now this would: refused
+    ops.append(['probe', ids[m], ''])
+    return {'ports': ids, 'ops': ops}
 
 
 def gen_par_history(rng):
@@ -403,16 +541,13 @@ def impl():
 
 
 def _edges(I):
-    """the implementation's own "reads the value of" relation: `$id` entries of get_deps() of each current expression"""
+    """the "reads the value of" relation of the implementation's state, by the TEXT of the expression each port holds: every
+    `$id` occurring anywhere in it (not get_deps(), not any walk of the code under test)"""
     g = {}
     for port in I.core_ports.get_all():
         e = port.get_expression()
-        g[port.get_id()] = _value_deps(e) if e is not None else set()
+        g[port.get_id()] = text_deps(str(e)) if e is not None else set()
     return g
-
-
-def _value_deps(e):
-    return {d[1:] for d in e.get_deps() if d.startswith('$') and len(d) > 1}
 
 
 def _reach(g, q):
@@ -427,12 +562,26 @@ def _reach(g, q):
 
 
 def _distinct_cycle(g):
-    """two distinct existing ports that read each other transitively, or None"""
-    reach = {q: _reach(g, q) for q in g}
-    for q in sorted(g):
-        for r in sorted(reach[q]):
-            if r != q and q in reach[r]:
-                return [q, r]
+    """two distinct existing ports that read each other transitively, or None (iterative DFS, self references ignored)"""
+    color = {}
+    for root in sorted(g):
+        if root in color:
+            continue
+        color[root] = 1
+        stack = [(root, iter(sorted(r for r in g[root] if r in g and r != root)))]
+        while stack:
+            x, it = stack[-1]
+            for r in it:
+                c = color.get(r)
+                if c == 1:
+                    return [r, x]
+                if c is None:
+                    color[r] = 1
+                    stack.append((r, iter(sorted(y for y in g[r] if y in g and y != r))))
+                    break
+            else:
+                color[x] = 2
+                stack.pop()
     return None
 
 
@@ -520,23 +669,25 @@ def _text(I, pid):
 
 
 def _state(I):
-    """pid -> (expression text, ids whose value it reads), from the implementation's own objects"""
+    """pid -> (text of the expression the port holds, ids whose value that text reads)"""
     st = {}
     for port in I.core_ports.get_all():
         e = port.get_expression()
-        st[port.get_id()] = (str(e), _value_deps(e)) if e else ('', set())
+        st[port.get_id()] = (str(e), text_deps(str(e))) if e else ('', set())
     return st
 
 
 def _candidate(I, pid, text):
-    """'' (clear) | None (the real parser refuses the text) | (canonical text, value dependencies)"""
+    """'' (clear) | None (the real parser refuses the text) | (canonical text, value dependencies by the text)"""
     if not text:
         return ''
     try:
-        cand = I.expressions.parse(pid, text, I.expressions.ROLE_VALUE)
+        I.expressions.parse(pid, text, I.expressions.ROLE_VALUE)
     except I.ex.ExpressionParseError:
         return None
-    return (str(cand), _value_deps(cand))
+    t = parse_fragment(text)
+    canon = text_of(t) if t is not None else text
+    return (canon, text_deps(text))
 
 
 def _serve(st, kind, pid, cand):
@@ -723,10 +874,31 @@ async def run_history(I, h):
     return obs, verdict
 
 
+class _Stuck(Exception):
+    pass
+
+
+def _alarm(signum, frame):
+    raise _Stuck()
+
+
 async def _run_batch(I, hs):
+    """one history after the other; a history during which the event loop is blocked for more than 30 s (an expression
+    evaluation of the background tasks that does not end -- not C04's subject) is abandoned and reported as skipped"""
     out = []
-    for h in hs:
-        out.append(await run_history(I, h))
+    old = signal.signal(signal.SIGALRM, _alarm)
+    try:
+        for h in hs:
+            signal.alarm(30)
+            try:
+                out.append(await run_history(I, h))
+            except _Stuck:
+                out.append(([('skipped', '')] * len(h['ops']), None))
+                I.core_ports._ports_by_id.clear()
+            finally:
+                signal.alarm(0)
+    finally:
+        signal.signal(signal.SIGALRM, old)
     return out
 
 
@@ -836,7 +1008,7 @@ def _simpler_trees(t):
             for b in _simpler_trees(a):
                 yield ('call', t[1], t[2][:i] + [b] + t[2][i + 1:])
         lo, _ = FUNCS[t[1]]
-        if len(t[2]) > lo:
+        if len(t[2]) > max(lo, 1):
             for i in range(len(t[2])):
                 yield ('call', t[1], t[2][:i] + t[2][i + 1:])
     elif t[0] in ('pv', 'self'):
@@ -943,7 +1115,7 @@ def _violation(h, k, kind, detail, obs, do_shrink=True):
     }
 
 
-def run_histories(ctx, res, hs, tag, every=False, shard_size=250, count_distinct=None):
+def run_histories(ctx, res, hs, tag, every=False, shard_size=250, count_distinct=None, spec=True):
     t0 = time.time()
     results = run_impl(hs)
     t_impl = time.time() - t0
@@ -955,6 +1127,9 @@ def run_histories(ctx, res, hs, tag, every=False, shard_size=250, count_distinct
     usable = []
     n_viol = 0
     for h, (obs, verdict) in zip(hs, results):
+        if obs and obs[0][0] == 'skipped':
+            bump('skipped:event-loop-blocked-by-an-evaluation')
+            continue
         res['evaluations'] += 1
         bump('histories')
         bump('ports:%d' % len(set(h['ports']) | set().union(*[_op_ports(o) for o in h['ops']]) - {''}))
@@ -1004,7 +1179,7 @@ def run_histories(ctx, res, hs, tag, every=False, shard_size=250, count_distinct
         meta.append(part)
     t0 = time.time()
     outs = coq.eval_shards(ctx.workdir, 'c04' + tag, HEADER, shards,
-                           ['bad_model cases', 'bad_spec %s cases' % ('true' if every else 'false')])
+                           ['bad_model cases', ('bad_spec %s cases' % ('true' if every else 'false')) if spec else '@nil N'])
     res['extra']['coq_wall_s'] = round(res['extra'].get('coq_wall_s', 0) + time.time() - t0, 2)
     for (rc, lists, err), part in zip(outs, meta):
         if rc != 0 or len(lists) != 2:
@@ -1070,6 +1245,22 @@ def check(ctx, res):
         if len(res['violations']) >= 5:
             break
     res['distinct_nontrivial'] = len(distinct)
+    sweep = wrapper_sweep_histories()
+    run_histories(ctx, res, sweep, 'sweep', every=False)
+    res['distribution']['wrapper-sweep:functions'] = len(sweep)
+    # long chains and rings: the theorem is about every graph, the correspondence must not stop at 8 ports
+    long_hs = [gen_long_history(ctx.rng, n) for n in LONG_LENGTHS[:-1] for _ in range(ctx.n(3, 20))]
+    long_hs += [gen_long_history(ctx.rng, LONG_LENGTHS[-1]) for _ in range(ctx.n(1, 5))]
+    # the saturation of the Coq oracle is cubic in the length of a chain: the 200-port histories go through the model only
+    # (which Props/C04.v proves equal to the specification) and through the text-based oracle of this file
+    short = [h for h in long_hs if len(h['ports']) <= 64]
+    results = run_histories(ctx, res, short, 'long', every=False, shard_size=8)
+    results += run_histories(ctx, res, [h for h in long_hs if len(h['ports']) > 64], 'xlong', shard_size=2, spec=False)
+    for h, (obs, _) in zip(long_hs, results):
+        k = 'long:%d-ports' % len(h['ports'])
+        res['distribution'][k] = res['distribution'].get(k, 0) + 1
+        res['distribution']['long:refused-closing-assignments'] = (res['distribution'].get('long:refused-closing-assignments', 0)
+                                                                   + sum(1 for o in obs if o[0] == 'circular'))
     if ctx.tier == 'thorough':
         batch = []
         total = 0
@@ -1097,6 +1288,9 @@ def search(ctx, res):
         hs = [(gen_par_history if i % 2 else gen_history)(ctx.rng) for i in range(4000)]
         run_histories(ctx, res, hs, 's%d' % done, every=True)
         done += len(hs)
+    if not res['violations']:
+        run_histories(ctx, res, [gen_long_history(ctx.rng, n) for n in LONG_LENGTHS for _ in range(3)], 'slong', every=False,
+                      shard_size=4, spec=False)
     if not res['violations']:
         hs = list(itertools.islice(exhaustive_histories(3), 6200))
         run_histories(ctx, res, hs, 'sx', every=True, shard_size=1000)
